@@ -91,6 +91,22 @@ func predFn(id int) func(any, error) bool {
 	}
 }
 
+// boxed is a pointer-shaped result: result codes from boxedBase on stand for a freshly allocated *boxed, so that two
+// equal results are distinct pointers (the library compares results with reflect.DeepEqual, by value).
+type boxed struct{ N int }
+
+func (b *boxed) String() string { return fmt.Sprintf("&box(%d)", b.N) }
+
+const boxedBase = 1000
+
+// resVal turns a result code of a script or a condition into the result value.
+func resVal(code int) any {
+	if code >= boxedBase {
+		return &boxed{N: code - boxedBase}
+	}
+	return code
+}
+
 // Cond is a set of handle / abort / cancel conditions.
 type Cond struct {
 	Errors   []int `json:"errors,omitempty"`   // error kinds registered with HandleErrors/AbortOnErrors
@@ -146,6 +162,7 @@ type PolicySpec struct {
 	DelayFn      []D     `json:"delay_fn,omitempty"` // values returned by a delay function per call (cyclic); -1 falls through
 	Jitter       D       `json:"jitter,omitempty"`
 	JitterFactor float32 `json:"jitter_factor,omitempty"`
+	PreReplaced  bool    `json:"pre_replaced,omitempty"` // retry: a backoff and then a random delay were configured on the builder first; the delay configuration above replaces them
 
 	// breaker
 	BrKind      int  `json:"br_kind,omitempty"` // 0 count (WithFailureThreshold), 1 ratio, 2 period count, 3 period rate
